@@ -125,12 +125,15 @@ class Harness(cm.BaseB):
     def execute(self, plan, what, R, C, stock, vm, x, v_stock, drawn):
         V = []
         slack = min(float(vm[c] - max(drawn[c])) for c in range(C))
-        combos = [("EvoWorklist", 950, False, 2, R + 1), ("FluentWorklist", 200, True, 0, max(1, R - 1)), ("FluentWorklist", 950, True, 2, 1), ("EvoWorklist", 200, False, 0, R)]
-        for dev, maxv, with_dest, mix_repeat, vrows in combos:
+        combos = [("EvoWorklist", 950, False, 2, R + 1, False), ("FluentWorklist", 200, True, 0, max(1, R - 1), False), ("FluentWorklist", 950, True, 2, 1, True), ("EvoWorklist", 200, False, 0, R, True)]
+        for dev, maxv, with_dest, mix_repeat, vrows, one_trough in combos:
             with_dest = with_dest and slack >= 1
-            tag = f"{what} executed on {dev}(max_volume={maxv}), destination={with_dest}, mix_repeat={mix_repeat}, trough rows={vrows}"
+            tag = f"{what} executed on {dev}(max_volume={maxv}), destination={with_dest}, mix_repeat={mix_repeat}, trough rows={vrows}, one trough={one_trough}"
             st = rt.Trough("stocks", vrows, 2, min_volume=0, max_volume=1e7, initial_volumes=[1000.0, 1e6], column_names=["other", "analyte"])
             di = rt.Trough("diluent", max(1, vrows - 1) if vrows > 1 else 2, 3, min_volume=0, max_volume=1e7, initial_volumes=[0, 0, 1e6], column_names=[None, None, "buffer"])
+            if one_trough:
+                # stock and diluent are two columns of one and the same trough
+                st = di = rt.Trough("reagents", vrows, 3, min_volume=0, max_volume=1e7, initial_volumes=[1000.0, 1e6, 1e6], column_names=["other", "analyte", "buffer"])
             plate = rt.Labware("dil", R, C, min_volume=0, max_volume=1e5)
             dest = rt.Labware("dest", R, C, min_volume=0, max_volume=1e5) if with_dest else None
             wl = getattr(rt, dev)(max_volume=maxv)
@@ -152,9 +155,11 @@ class Harness(cm.BaseB):
                         break
             used_stock = 1e6 - float(st.volumes[0, 1])
             if Fraction(used_stock) != v_stock or st.volumes[0, 0] != 1000.0:
+                pass
+            if Fraction(used_stock) != v_stock or st.volumes[0, 0] != 1000.0:
                 V.append(("C14/stock-consumption", f"{tag}: consumed {used_stock} of stock, plan reports {float(v_stock)}"))
             used_dil = 1e6 - float(di.volumes[0, 2])
-            if used_dil > float(plan.v_diluent) + 1e-6 or di.volumes[0, 0] != 0 or di.volumes[0, 1] != 0:
+            if used_dil > float(plan.v_diluent) + 1e-6 or (not one_trough and (di.volumes[0, 0] != 0 or di.volumes[0, 1] != 0)):
                 V.append(("C14/diluent-consumption", f"{tag}: consumed {used_dil} of diluent, plan reports at most {plan.v_diluent}"))
             if with_dest:
                 dc = dest.composition.get("analyte")
